@@ -1,4 +1,5 @@
 import Proofs.Apps.FileServer
+import Proofs.Apps.FileServerHistory
 /-!
 # C19 — the file server never touches anything outside its root directory
 
@@ -193,6 +194,133 @@ theorem C19_no_block2_is_block0 (content : Bytes) :
   · intro hle
     simp [sliceBlock, hs, List.length_take]; omega
 
+-- round 4: histories (observations, refresh rounds) and the command line ------------------------------
+
+/-- One step of a server whose table is inside the root: operations confined, table still inside. -/
+theorem step_inside (s : Server) (hr : s.cfg.root.wf) (ht : TableInside s.cfg.root s.obs)
+    (ev : Event) (hev : ev.wf) :
+    AllInside s.cfg.root (s.step ev).2.ops ∧ TableInside s.cfg.root (s.step ev).1.obs := by
+  cases ev with
+  | request req w =>
+    simp only [Server.step]
+    split
+    · exact ⟨C19_ops_confined s.cfg req w hr hev, ht⟩
+    · refine ⟨C19_ops_confined s.cfg req _ hr (wf_obs _ hev), ?_⟩
+      simp only []
+      split
+      · exact ht.refreshed _
+      · exact ht
+  | observe path =>
+    simp only [Server.step]
+    split
+    · exact ⟨by simp, ht⟩
+    · rename_i p hp
+      exact ⟨by simp, ht.register (C19_confined _ hr _ _ hp)⟩
+  | tick gone =>
+    simp only [Server.step]
+    split
+    · exact ⟨tick_ops_inside ht gone, ht⟩
+    · exact ⟨by simp, ht⟩
+
+/-- **C19 (operations confined, over histories).** Start a server, then let any sequence of events
+happen -- requests of any kind (with any answers of the operating system whose names are single
+components), registrations of observations for any Uri-Path, refresh rounds with any set of files
+gone: every path named by every file-system operation of every step -- those of the requests, and
+the `stat`s of `check_files_for_refreshes` on the paths it remembered -- is inside the root. -/
+theorem C19_history_ops_confined (cfg : Config) (hr : cfg.root.wf) (evs : List Event)
+    (hw : ∀ ev ∈ evs, ev.wf) :
+    ∀ out ∈ ((Server.fresh cfg).run evs).2, AllInside cfg.root out.ops := by
+  suffices H : ∀ (s : Server), s.cfg = cfg → TableInside cfg.root s.obs →
+      ∀ out ∈ (s.run evs).2, AllInside cfg.root out.ops from
+    H (Server.fresh cfg) rfl (by intro e he; cases he)
+  induction evs with
+  | nil => intro s _ _ out h; cases h
+  | cons ev evs ih =>
+    intro s hc ht out hout
+    have hev := hw ev (by simp)
+    have hstep := step_inside s (hc ▸ hr) (hc ▸ ht) ev hev
+    rw [hc] at hstep
+    simp only [Server.run, List.mem_cons] at hout
+    rcases hout with rfl | hout
+    · exact hstep.1
+    · exact ih (fun e he => hw e (List.mem_cons_of_mem _ he)) _ ((step_cfg s ev).trans hc)
+        hstep.2 out hout
+
+/-- One step of a server without write permission modifies nothing. -/
+theorem step_readonly (s : Server) (h : s.cfg.write = false) (ev : Event) :
+    ∀ op ∈ (s.step ev).2.ops, op.modifying = false := by
+  cases ev with
+  | request req w =>
+    simp only [Server.step]
+    split
+    · exact C19_readonly s.cfg req w h
+    · exact C19_readonly s.cfg req _ h
+  | observe path =>
+    simp only [Server.step]
+    split <;> simp
+  | tick gone =>
+    simp only [Server.step]
+    split
+    · exact tick_ops_nonmodifying _ _
+    · simp
+
+/-- **C19 (read-only, over histories).** Without the write flag no step of any history -- request,
+registration of an observation, refresh round -- produces a modifying operation. -/
+theorem C19_history_readonly (cfg : Config) (h : cfg.write = false) (evs : List Event) :
+    ∀ out ∈ ((Server.fresh cfg).run evs).2, ∀ op ∈ out.ops, op.modifying = false := by
+  suffices H : ∀ (s : Server), s.cfg = cfg →
+      ∀ out ∈ (s.run evs).2, ∀ op ∈ out.ops, op.modifying = false from H (Server.fresh cfg) rfl
+  induction evs with
+  | nil => intro s _ out ho; cases ho
+  | cons ev evs ih =>
+    intro s hc out hout
+    simp only [Server.run, List.mem_cons] at hout
+    rcases hout with rfl | hout
+    · exact step_readonly s (hc ▸ h) ev
+    · exact ih _ ((step_cfg s ev).trans hc) out hout
+
+/-- **C19 (the answer does not depend on the past).** Whatever happened before -- observations
+registered or ended, files replaced, refresh rounds run or the refresh task dead --, a request is
+answered exactly as `handle` answers it from the present answers of the operating system: no
+remembered `stat`, size or content takes part. -/
+theorem C19_response_history_independent (cfg : Config) (evs : List Event) (req : Request)
+    (w : World) :
+    (((Server.fresh cfg).run evs).1.step (.request req w)).2.resp = some (handle cfg req w).resp := by
+  rw [step_request_resp, run_cfg]; rfl
+
+/-- **C19 (blocks concatenate to the file, after any history).** After any sequence of events, a
+client that asks the server (whose state keeps moving with every block request) for block 0, 1,
+2, … of an accepted file path until `more = false` obtains exactly the bytes the file has now. -/
+theorem C19_blocks_concat_after_history (cfg : Config) (evs : List Event) (req : Request)
+    (w : World) (p : PPath) (szx : Nat)
+    (hget : req.method = .get) (hwk : req.path ≠ wellKnownCore)
+    (hacc : requestToLocalPath cfg.root req.path = .ok p) (hfile : w.stat = .file)
+    (hrev : (cfg.etags && w.etagMatches) = false) (hnt : trailingEmpty req.path = false) :
+    Server.fetch req w szx (w.content.length + 1) 0 ((Server.fresh cfg).run evs).1
+      = some w.content := by
+  rw [fetch_eq_fetchLoop, run_cfg]
+  exact C19_blocks_concat cfg req w p szx hget hwk hacc hfile hrev hnt
+
+/-- **C19 (write permission comes from `--write` only).** For every command line of the modelled
+tokens that the parser accepts, the server is built with write permission only if a `--write`
+token is on it; in particular the default is read-only. -/
+theorem C19_cli_write_needs_flag (argv : List Str) (o : CliOpts)
+    (h : parseArgv {} argv = .ok o) (hn : tokWrite ∉ argv) : o.config.write = false := by
+  cases hw : o.write with
+  | false => simp [CliOpts.config, hw]
+  | true =>
+    rcases parseArgv_write {} o argv h hw with h1 | h1
+    · cases h1
+    · exact absurd h1 hn
+
+/-- **C19 (a server started without `--write` modifies nothing).** The command line to the file
+system: started from any accepted command line without `--write`, no step of any history produces
+a modifying operation. -/
+theorem C19_cli_readonly (argv : List Str) (o : CliOpts) (h : parseArgv {} argv = .ok o)
+    (hn : tokWrite ∉ argv) (evs : List Event) :
+    ∀ out ∈ ((Server.fresh o.config).run evs).2, ∀ op ∈ out.ops, op.modifying = false :=
+  C19_history_readonly o.config (C19_cli_write_needs_flag argv o h hn) evs
+
 -- non-vacuity and sanity ------------------------------------------------------------------------
 
 -- ASCII strings used below
@@ -265,5 +393,57 @@ example : (List.range 3).map (fun k => ((sliceBlock (List.range 40) (some (k, 0)
   decide
 example : fetchLoop (fun k => sliceBlock (List.range 40) (some (k, 0))) 41 0
     = some (List.range 40) := by decide
+
+-- round 4: a concrete history and concrete command lines
+
+private def getX (b : Option (Nat × Nat)) : Request :=
+  { method := .get, path := [d, xtxt], ifNoneMatch := false, ifMatch := false,
+    ifMatchEmpty := false, block2 := b }
+private def pX : PPath := { root := 1, parts := [srv, files, d, xtxt] }
+private def roCfg : Config := { root := exampleRoot, write := false, etags := true }
+
+/-- observe a file, fetch it (the pending entry costs one more `stat` and is refreshed), fetch again
+(no extra `stat`), let a refresh round pass (one `stat` of the remembered path), remove the file,
+let two more rounds pass: the first one ends the refresh task, the second does nothing. -/
+example : (((Server.fresh roCfg).run
+      [.observe [d, xtxt], .request (getX none) exampleWorld, .request (getX none) exampleWorld,
+       .tick [], .tick [pX], .tick []]).2.map (·.ops))
+    = [[], [.stat pX, .openRead pX, .stat pX], [.stat pX, .openRead pX], [.stat pX], [.stat pX], []] := by
+  decide
+
+/-- the hypotheses of `C19_history_ops_confined` are met by that history -/
+example : ∀ ev ∈ [Event.observe [d, xtxt], .request (getX none) exampleWorld, .tick [pX]], ev.wf := by
+  intro ev h
+  simp only [List.mem_cons, List.not_mem_nil, or_false] at h
+  rcases h with rfl | rfl | rfl
+  · trivial
+  · refine ⟨by decide, ?_⟩
+    intro c hc
+    simp [exampleWorld] at hc
+    rcases hc with rfl | rfl <;> decide
+  · trivial
+
+/-- a 40-byte file fetched with szx 0 from a server in the state that history left -/
+example : Server.fetch (getX none) exampleWorld 0 41 0
+    ((Server.fresh roCfg).run [.observe [d, xtxt], .tick [], .request (getX (some (1, 0))) exampleWorld]).1
+    = some (List.range 40) := by decide
+
+private def dashV : Str := [45, 118]
+private def slashSrvFiles : Str := [47, 115, 114, 118, 47, 102, 105, 108, 101, 115]
+private def digit0 : Str := [48]
+
+/-- `aiocoap-fileserver -v /srv/files`: read-only, ETags on, root `/srv/files` -/
+example : parseArgv {} [dashV, slashSrvFiles] = .ok { path := some slashSrvFiles } ∧
+    ({ path := some slashSrvFiles } : CliOpts).config.root = exampleRoot ∧
+    ({ path := some slashSrvFiles } : CliOpts).config.write = false ∧
+    ({ path := some slashSrvFiles } : CliOpts).config.etags = true := by decide
+/-- `aiocoap-fileserver /srv/files --etag-length 0 --write`: writable, ETags off -/
+example : parseArgv {} [slashSrvFiles, tokEtagLength, digit0, tokWrite]
+    = .ok { write := true, etagLength := 0, path := some slashSrvFiles } := by decide
+/-- no argument at all: the working directory, read-only -/
+example : parseArgv {} [] = .ok {} ∧ ({} : CliOpts).config.root = { root := 0, parts := [] } ∧
+    ({} : CliOpts).config.write = false := by decide
+/-- an abbreviated option is not guessed at -/
+example : parseArgv {} [[45, 45, 119, 114, 105]] = .outOfModel := by decide
 
 end Aiocoap.FileServer
